@@ -1,2 +1,219 @@
-/-! Line driver for C08 (stub; replaced when the model is written). -/
-def main : IO Unit := pure ()
+import MpVerif.C08.Model
+/-! Line driver for C08: one case per line (grammar: checks/c08.py), prints the model's prediction of
+every observation line of harness/h_easy.cc.  No logic of its own: only parsing, calls into
+`MpVerif.C08` model functions, and printing. -/
+open MpVerif.C08
+
+abbrev P := StateT (List String) (Except String)
+
+def tok : P String := do
+  match (← get) with
+  | [] => throw "short"
+  | t :: ts => set ts; pure t
+
+def pNat : P Nat := do
+  let t ← tok
+  match t.toNat? with
+  | some n => pure n
+  | none => throw s!"nat {t}"
+
+def pInt : P Int := do
+  let t ← tok
+  match t.toInt? with
+  | some n => pure n
+  | none => throw s!"int {t}"
+
+/-- integer `k` meaning `k/8` -/
+def pRat : P Rat := do
+  let k ← pInt
+  pure ((k : Rat) / 8)
+
+def pBnd : P Bnd := do
+  match (← get) with
+  | "I" :: ts => set ts; pure .pinf
+  | "-I" :: ts => set ts; pure .ninf
+  | _ => pure (.fin (← pRat))
+
+def pName : P String := do
+  let t ← tok
+  pure (if t == "~" then "" else t)
+
+def rep {α} (n : Nat) (p : P α) : P (List α) := do
+  let mut acc : Array α := #[]
+  for _ in [0:n] do
+    acc := acc.push (← p)
+  pure acc.toList
+
+structure SolSuf where
+  name : String
+  kind : Nat
+  entries : List (Nat × Rat)
+
+structure Case where
+  id : String
+  text : Bool
+  flags : Nat
+  m : MatrixModel
+  solx : List Rat
+  soly : List Rat
+  code : Int
+  ssuf : List SolSuf
+
+def pCase : P Case := do
+  let c ← tok
+  if c != "C" then throw "not a case"
+  let id ← tok
+  let api ← pNat
+  let text ← pNat
+  let _comments ← pNat
+  let flags ← pNat
+  let n ← pNat
+  let hasT ← pNat
+  let types ← if hasT != 0 then (do pure (some (← rep n pNat))) else pure none
+  let lb ← rep n pBnd
+  let ub ← rep n pBnd
+  let sense ← pNat
+  let c0 ← pRat
+  let hasC ← pNat
+  let cc ← if hasC != 0 then (do pure (some (← rep n pRat))) else pure none
+  let qfmt ← pNat
+  let qnz ← pNat
+  let qstart ← rep n pNat
+  let qidx ← rep qnz pNat
+  let qval ← rep qnz pRat
+  let mm ← pNat
+  let rlb ← rep mm pBnd
+  let rub ← rep mm pBnd
+  let anz ← pNat
+  let astart ← rep mm pNat
+  let aidx ← rep anz pNat
+  let aval ← rep anz pRat
+  let nw ← pNat
+  let ws ← rep nw (do let i ← pNat; let v ← pRat; pure (i, v))
+  let nd ← pNat
+  let dws ← rep nd (do let i ← pNat; let v ← pRat; pure (i, v))
+  let ns ← pNat
+  let sufs ← rep ns (do
+    let name ← tok; let kind ← pNat; let len ← pNat; let vals ← rep len pRat
+    pure ({ name := name, kind := kind, values := vals } : Suffix))
+  let hasCN ← pNat
+  let cn ← if hasCN != 0 then (do pure (some (← rep n pName))) else pure none
+  let hasRN ← pNat
+  let rn ← if hasRN != 0 then (do pure (some (← rep mm pName))) else pure none
+  let objName ← pName
+  let _solbin ← pNat
+  let nx ← pNat
+  let solx ← rep nx pRat
+  let ny ← pNat
+  let soly ← rep ny pRat
+  let code ← pInt
+  let nss ← pNat
+  let ssuf ← rep nss (do
+    let name ← tok; let kind ← pNat; let ne ← pNat
+    let ents ← rep ne (do let i ← pNat; let v ← pRat; pure (i, v))
+    pure ({ name := name, kind := kind, entries := ents } : SolSuf))
+  if !(← get).isEmpty then throw "trailing tokens"
+  let model : MatrixModel :=
+    { api := api, n := n, types := types, lb := lb, ub := ub, sense := sense, c0 := c0, c := cc, qfmt := qfmt,
+      Q := { start := qstart, index := qidx, value := qval }, m := mm, rlb := rlb, rub := rub,
+      A := { start := astart, index := aidx, value := aval }, ws := ws, dws := dws, sufs := sufs,
+      colNames := cn, rowNames := rn, objName := objName }
+  pure { id := id, text := text != 0, flags := flags, m := model, solx := solx, soly := soly, code := code, ssuf := ssuf }
+
+/-- numbers are printed scaled by 1024 -/
+def showRat (q : Rat) : String :=
+  let s := q * 1024
+  if s.den == 1 then toString s.num else s!"R{s.num}/{s.den}"
+
+def showBnd : Bnd → String
+  | .ninf => "-I"
+  | .pinf => "I"
+  | .fin q => showRat q
+
+partial def showExpr : Expr → String
+  | .num q => "n" ++ showRat q
+  | .var i => "v" ++ toString i
+  | .mul a b => "(* " ++ showExpr a ++ " " ++ showExpr b ++ ")"
+  | .sum args => "(+" ++ String.join (args.map (fun a => " " ++ showExpr a)) ++ ")"
+
+def showEntries (l : List (Nat × Rat)) : String :=
+  String.join (l.map (fun e => s!" {e.1}:{showRat e.2}"))
+
+def showDenseNZ (l : List Rat) : String :=
+  String.join ((l.zipIdx.filter (fun e => e.1 != 0)).map (fun e => s!" {e.2}:{showRat e.1}"))
+
+def showName (s : String) : String := if s.isEmpty then "~" else s
+
+def sufSize (m : MatrixModel) (kind : Nat) : Nat :=
+  match kind % 4 with | 0 => m.n | 1 => m.m | _ => 1
+
+def runCase (c : Case) : List String := Id.run do
+  let m := c.m
+  let id := c.id
+  let mut out : Array String := #[]
+  out := out.push (s!"{id} perm" ++ String.join ((List.range m.n).map (fun j => s!" {vperm m j}")))
+  out := out.push (s!"{id} inv" ++ String.join ((List.range m.n).map (fun i => s!" {vpermInv m i}")))
+  out := out.push s!"{id} load 1 1"
+  let h := header m c.text c.flags
+  out := out.push (s!"{id} hdr fmt {if h.text then "t" else "b"} flags {h.flags} nvars {h.nvars} ncons {h.ncons} nobjs {h.nobjs}" ++
+    s!" nranges {h.nranges} neqns 0 nlc 0 nlo {h.nlobjs} nlvc 0 nlvo {h.nlvo} nlvb 0 nbv {h.nbv} niv {h.niv}" ++
+    s!" nlvbi 0 nlvci 0 nlvoi {h.nlvoi} nzc {h.nzc} nzo {h.nzo} maxcn {h.maxcn} maxvn {h.maxvn}")
+  if !readable m then
+    out := out.push s!"{id} readback read-error:too-few-arguments"
+  else
+    out := out.push s!"{id} readback ok nvars {m.n} ncons {m.m} nobjs 1"
+    let x0 := dense m.n (feedInitialGuesses m)
+    let vb := feedVarBounds m
+    for i in List.range m.n do
+      let b := vb.getD i (.fin 0, .fin 0)
+      out := out.push s!"{id} var {i} {showBnd b.1} {showBnd b.2} {if decodeIsInt h i then "int" else "cont"} x0 {showRat (x0.getD i 0)}"
+    let e := feedObjExpr m
+    let es := match e with
+      | .num q => if q == 0 then "nil" else showExpr e
+      | _ => showExpr e
+    out := out.push (s!"{id} obj 0 {if m.sense != 0 then "max" else "min"} lin" ++ showEntries (feedObjGradient m) ++ " nl " ++ es)
+    let y0 := dense m.m (feedInitialDualGuesses m)
+    let cb := feedConBounds m
+    for i in List.range m.m do
+      let b := cb.getD i (.fin 0, .fin 0)
+      out := out.push (s!"{id} row {i} {showBnd b.1} {showBnd b.2} y0 {showRat (y0.getD i 0)} lin" ++ showEntries (feedLinearConExpr m i))
+    out := out.push (s!"{id} colsizes" ++ String.join ((feedColumnSizes m).map (fun v => s!" {v}")))
+    for s in feedSuffixes m do
+      if !s.entries.isEmpty then
+        out := out.push (s!"{id} suf {s.name} {s.kind % 8}" ++ showDenseNZ (dense (sufSize m s.kind) s.entries))
+  match feedColNames m with
+  | none => out := out.push s!"{id} colfile 0"
+  | some l => out := out.push (s!"{id} colfile 1" ++ String.join (l.map (fun s => " " ++ showName s)))
+  match feedRowObjNames m with
+  | none => out := out.push s!"{id} rowfile 0"
+  | some l => out := out.push (s!"{id} rowfile 1" ++ String.join (l.map (fun s => " " ++ showName s)))
+  out := out.push s!"{id} sol code {c.code}"
+  let x := onPrimal m c.solx
+  out := out.push (s!"{id} sol x" ++ String.join (x.map (fun v => " " ++ showRat v)))
+  out := out.push (s!"{id} sol y" ++ String.join (c.soly.map (fun v => " " ++ showRat v)))
+  for s in c.ssuf do
+    out := out.push (s!"{id} sol suf {s.name} {s.kind} {sufSize m s.kind}" ++ showDenseNZ (onSuffix m s.kind s.entries))
+  if x.length == m.n then
+    match computeObjValue m (fun j => x.getD j 0) with
+    | some v => out := out.push s!"{id} sol obj {showRat v}"
+    | none => out := out.push s!"{id} sol obj crash"
+  if m.api == 0 then out := out.push s!"{id} samefile 1"
+  out := out.push s!"{id} end"
+  pure out.toList
+
+partial def loop (h : IO.FS.Stream) (o : IO.FS.Stream) : IO Unit := do
+  let line ← h.getLine
+  if line.isEmpty then return
+  let l := line.trimAscii.toString
+  if l.isEmpty || l.startsWith "#" then loop h o
+  else
+    let toks := (l.splitOn " ").filter (fun t => !t.isEmpty)
+    match (pCase.run toks) with
+    | .ok (c, _) => for s in runCase c do o.putStrLn s
+    | .error e => o.putStrLn s!"bad-op {e}"
+    loop h o
+
+def main : IO Unit := do
+  let i ← IO.getStdin
+  let o ← IO.getStdout
+  loop i o
